@@ -188,6 +188,8 @@ func c02Run(c *core.Ctx) {
 			}
 		}
 	}
+	// print-back through the command-line tool (-pb overwrites the user's files): every schedule of its goroutines
+	cliExplore(c, "C02", [][]string{{"-pb"}, {"-pb", "-p", "-e"}}, []string{"7.4", "5.6"}, cliConfigs(c.Thorough(), false))
 }
 
 func itoa(i int) string { return strconv.Itoa(i) }
@@ -199,6 +201,6 @@ func init() {
 			"Oracle: zero reported errors ⇒ printer output == source bytes. non-trivial = parsed without error (round trip actually compared); distinct by (version, source text)",
 		Assume: []string{"programs with reported errors are not judged here (C06/C07/C08 do)"},
 		Run:    c02Run,
-		Replay: replaySrc(c02One),
+		Replay: withCLIReplay(replaySrc(c02One)),
 	})
 }
